@@ -963,6 +963,7 @@ var c09Tricky = []string{
 	"<script><!--<SCRIPT ></ScRiPt>--></script>", "<script><!-->x</script>", "<script><!--->x</script>", "<script><!--<scriptx></script>", "<script><!--<script</script>", "<script>a<b</script>", "<script/>a</script>",
 	"<style></style>", "<style>a</STYLE\n>b", "<title></title-x>b</title>", "<textarea></textarea x>", "<xmp><b></xmp>", "<iframe></iframes></iframe>", "<plaintext>a</plaintext><b>", "<PlainText/>x",
 	"<svg><text>5\" pipe</text></svg><p>", "<svg a='>\"</svg>'>x</svg>y", "<svg a=\">'</svg>\">'</svg>y", "<math><!-- \" --></math>x", "<svg><?pi '?></svg>x", "<svg><![CDATA[\"]]></svg>x", "<svg a=\"", "<svg a='\x00'></svg>", "<svg>'<a b=\"</svg>\"></svg>x", "<svg/></svg>x", "<svg '>'></svg>x", "<svg>\"</svg>'</svg>", "<xml a=\"'\" b='\"'>\"'</xml>x", "<svg><</svg>", "<svg><!a \"></svg>", "<svg><a\"></svg>\"></svg>x",
+	"<svg><!-- </svg> --><g/></svg>x", "<svg><![CDATA[</svg>]]></svg>x", "<math><!--</math>--></math>", "<svg><?pi </svg>?></svg>",
 	"<svg></SVG>", "<svg><path d=\"</svg>\"/></svg>x", "<svg>\"</svg>", "<svg></svgx></svg >", "<svg", "<svg>", "<svg></svg", "<svg>\x00</svg><svg></svg>x<math></math>", "<math></MATH>", "<xml></xml>", "<svgx></svgx>",
 	"a<b", "a< b", "a<", "a<1", "<a>\x00</a>", "\x00", "a\x00<b>\x00</b>", "<a\x00b=c\x00>", "</a\x00>", "<a b='\x00'>", "</\x00", "</\x00>", "<\x00",
 	"</A B=C>", "</A X=Y \f>", "</Ab/Cd>", "</A\tB='C D'/>", "</a\f>", "</a \f >", "</a\f", "</A", "</AB>", "</", "<A B=C>",
@@ -1435,6 +1436,12 @@ func c09Constructs(r *Rng, tier string, rep *Report) {
 	c09CompareExp(rep, []byte("<svg><text>5\" pipe</text></svg><p>"), "", "", []c09ExpTok{
 		{ty: html.SVGToken, data: []byte("<svg><text>5\" pipe</text></svg>"), ctx: "svg", key: "c09-svg:quote"},
 		{ty: html.StartTagToken, data: []byte("<p"), ctx: "starttag"}, {ty: html.StartTagCloseToken, ctx: "close"}})
+	// a comment / CDATA section / processing instruction inside svg or math that contains the element's end tag: well-formed XML
+	c09CompareExp(rep, []byte("<svg><!-- </svg> --><g/></svg>x"), "", "", []c09ExpTok{
+		{ty: html.SVGToken, data: []byte("<svg><!-- </svg> --><g/></svg>"), text: []byte("svg"), ctx: "svg", key: "c09-svg:comment-endtag"},
+		{ty: html.TextToken, data: []byte("x"), ctx: "text"}})
+	c09CompareExp(rep, []byte("<math><![CDATA[</math>]]></math>"), "", "", []c09ExpTok{
+		{ty: html.MathToken, data: []byte("<math><![CDATA[</math>]]></math>"), text: []byte("math"), ctx: "math", key: "c09-svg:comment-endtag"}})
 	c09CompareExp(rep, []byte("</A X=Y \f>"), "", "", []c09ExpTok{{ty: html.EndTagToken, data: []byte("</a X=Y \f>"), text: []byte("a X=Y"), ctx: "endtag", key: "c09-case:endtag"}})
 	c09CompareExp(rep, []byte("<title>a</title-x>b</title"), "", "", []c09ExpTok{
 		{ty: html.StartTagToken, data: []byte("<title"), ctx: "starttag"}, {ty: html.StartTagCloseToken, ctx: "close"},
